@@ -364,7 +364,7 @@ def r9(ctx, rep):
 def r10(ctx, rep):
     # two relation instances of one SELECT must not share a name: the set of names in use is isolated around nested pipelines, not cleared
     import C07
-    rep.borrowed(C07.r4, ctx, "C09.R10", "generated relation aliases are distinct from every name already used in the same SELECT", only=r"^names-scope")
+    rep.borrowed(C07.r4, ctx, "C09.R10", "generated relation aliases are distinct from every name already used in the same SELECT, and the flag that drops table qualifiers belongs to the SELECT it was computed for", only=r"^(names-scope|writes-in-scope)")
 
 
 def run(ctx, rep):
